@@ -87,17 +87,50 @@ func ZZ_C16_Unmarshal() {
 		if err == nil {
 			err = yaml.Unmarshal(b, x)
 			fmt.Printf("ZZ-NOTE unmarshal err=%v\n", err)
+			if err == nil {
+				zzDeepCopyOf(x)
+			}
 		}
 		return
 	}
 	err := x.UnmarshalYAML(n)
 	if err != nil {
 		_ = err.Error()
+	} else {
+		// whatever was decoded is deep-copied when its Taskfile is merged into an
+		// including one, and when its task is compiled
+		zzDeepCopyOf(x)
 	}
 	if zz.Twin() {
 		zz.Assert(false, "twin")
 	}
 	zz.Reach("end")
+}
+
+// zzDeepCopyOf calls the value's own DeepCopy (the types that have one).
+func zzDeepCopyOf(x zzUnmarshaler) {
+	switch v := x.(type) {
+	case *Cmd:
+		_ = v.DeepCopy()
+	case *Dep:
+		_ = v.DeepCopy()
+	case *For:
+		_ = v.DeepCopy()
+	case *Include:
+		_ = v.DeepCopy()
+	case *Matrix:
+		_ = v.DeepCopy()
+	case *Platform:
+		_ = v.DeepCopy()
+	case *Precondition:
+		_ = v.DeepCopy()
+	case *VarsWithValidation:
+		_ = v.DeepCopy()
+	case *Task:
+		_ = v.DeepCopy()
+	case *Vars:
+		_ = v.DeepCopy()
+	}
 }
 
 func zzMarshal(n *yaml.Node) (b []byte, err error) {
